@@ -1484,7 +1484,7 @@ def write_rdfxml(quads, ch, base):
 
 # ------------------------------------------------------------------ JSON-LD
 
-JSONLD_FEATURES = ["j_empty_list", "j_type_scoped", "j_prop_scoped", "j_embedded_ctx", "j_propagate_false", "j_propagate_true", "j_prefix", "j_term", "j_vocab", "j_base", "j_language", "j_coerce_id", "j_coerce_dt", "j_container_list",
+JSONLD_FEATURES = ["j_nest", "j_empty_list", "j_type_scoped", "j_prop_scoped", "j_embedded_ctx", "j_propagate_false", "j_propagate_true", "j_prefix", "j_term", "j_vocab", "j_base", "j_language", "j_coerce_id", "j_coerce_dt", "j_container_list",
                    "j_list", "j_reverse", "j_native", "j_expanded", "j_graph_wrap", "j_type_kw", "j_ascii", "j_indent",
                    "j_arrays", "j_nested", "j_split_node", "j_ctx_array", "j_vocab_term"]
 _GEN_DELIM_END = re.compile(r"[:/?#\[\]@]$")
@@ -1764,6 +1764,7 @@ def write_jsonld(quads, ch, base):
                     prop_scope[t] = (m, not ch.flag("j_propagate_false", 0.3))
     # the scope in force where a node object is written: (term overrides, what nested node objects revert to or None)
     scope_stack = [({}, None, False)]
+    nest_alias = set()
 
     def node(s, g, stack, pos=None):
         pos = list(by_sg.get((s, g), [])) if pos is None else list(pos)
@@ -1866,6 +1867,26 @@ def write_jsonld(quads, ch, base):
                 obj[k] = a + b
             else:
                 obj[k] = v
+        # "@nest" (JSON-LD 1.1 section 4.4): properties — and the @id — of the node object grouped in a map under @nest or an
+        # alias of it; they belong to the node object as if written directly in it
+        movable = [k for k in obj if k == "@id" or not k.startswith("@")]
+        # (not under a non-propagated context: rdflib reverts it inside the @nest map, the specification does not — kept apart)
+        if not expanded and len(movable) >= 1 and not own_nonprop_type and not emb_nonprop and revert is None \
+                and ch.flag("j_nest", 0.2):
+            ch.shuffle(movable)
+            parts = 1 + (len(movable) > 2 and ch.pick(2))
+            moved = movable[: 1 + ch.pick(len(movable))]
+            maps = [{} for _ in range(parts)]
+            for k in moved:
+                maps[ch.pick(parts)][k] = obj.pop(k)
+            maps = [m for m in maps if m]
+            nkey = "@nest"
+            if ch.pick(2):
+                nkey = "nst"
+                nest_alias.add(nkey)
+            obj[nkey] = maps[0] if len(maps) == 1 and ch.pick(2) else maps
+            if any("@id" in m for m in maps):
+                ch.used["j_nest_id"] += 1
         return obj
 
     # container @list coercion: decided before rendering, only for predicates all of whose objects are list heads
@@ -1960,6 +1981,8 @@ def write_jsonld(quads, ch, base):
         if prop:
             sc["@propagate"] = True
         ctx[name] = {"@id": cls, "@context": sc}
+    for a in nest_alias:
+        ctx[a] = "@nest"
     if vocab is not None:
         ctx["@vocab"] = vocab
     if doc_base != base:
